@@ -72,6 +72,13 @@ pub open spec fn fold_trace<'a, A: 'a, B, F: FnMut(B, &'a A) -> B>(s: Seq<A>, f:
     &&& forall|k: int| 0 <= k < s.len() ==> call_ensures(f, (#[trigger] accs[k], &s[ord[k]]), accs[k + 1])
 }
 
+// A-ND: the number of elements is the product of the shape, so arrays of equal shape have equally many elements
+#[verifier::external_body]
+pub proof fn axiom_len_of_shape<A, D: Dimension>(a: &ArrayN<A, D>, b: &ArrayN<A, D>)
+    requires a.shape_spec() == b.shape_spec()
+    ensures a@.len() == b@.len()
+{ }
+
 // ---- errors of src/errors.rs used by the min/max family ------------------------------------------------
 // Verus does not connect `?` with a user `From` conversion, so the unit struct `EmptyInput` of the source is
 // modelled as the value it converts to (`impl From<EmptyInput> for MinMaxError`, errors.rs:36-40, maps it to
